@@ -36,11 +36,16 @@ struct Ctx {
     depth: u32,
     wakes_in: Vec<Value>,
     wakes_out: Vec<Value>,
+    /// number of this call (events of one call share it)
+    cid: u64,
+    /// > 0: this call took the last handle of its side (dec_* logged); counts its critical sections
+    split: u32,
 }
 
 #[derive(Default)]
 struct Rec {
     log: Vec<Value>,
+    calls: u64,
     ctx: HashMap<shuttle::thread::ThreadId, Ctx>,
 }
 
@@ -59,9 +64,13 @@ fn me() -> shuttle::thread::ThreadId {
 fn call<R>(op: Value, f: impl FnOnce() -> R) -> (R, usize) {
     let id = me();
     with_rec(|r| {
+        r.calls += 1;
+        let cid = r.calls;
         let c = r.ctx.entry(id).or_default();
         c.op = Some(op.clone());
         c.ev = None;
+        c.cid = cid;
+        c.split = 0;
         c.wakes_out.clear();
     });
     let out = f();
@@ -134,19 +143,63 @@ unsafe impl lock_api::RawMutex for SLock {
             };
             if let Some(mut e) = op {
                 e["wakes"] = json!(wakes);
-                if !first {
-                    e["cs"] = json!(2);
-                }
-                r.log.push(e);
-                let n = r.log.len() - 1;
-                let c = r.ctx.entry(id).or_default();
-                if first {
-                    c.ev = Some(n);
+                let split = r.ctx.entry(id).or_default().split;
+                if split > 0 {
+                    // the critical sections after the decrement that took the last handle: the first
+                    // one has to close the channel, the second one (receivers) clears the buffer
+                    e["op"] = json!(if split == 1 { "late_close" } else { "late_clear" });
+                    r.log.push(e);
+                    let n = r.log.len() - 1;
+                    let c = r.ctx.entry(id).or_default();
+                    c.split += 1;
+                    if split == 1 {
+                        c.ev = Some(n);
+                    }
+                } else {
+                    // events of a call that takes several critical sections share `cid`
+                    e["cid"] = json!(r.ctx.entry(id).or_default().cid);
+                    r.log.push(e);
+                    let n = r.log.len() - 1;
+                    let c = r.ctx.entry(id).or_default();
+                    if first {
+                        c.ev = Some(n);
+                    }
                 }
             }
         });
         self.held.store(false, Ordering::Release);
     }
+}
+
+/// Handle counters of the shared channels (pass-through atomics of the verification build): every
+/// operation on them is a scheduling point, like a lock acquisition.
+fn atomic_before() {
+    shuttle::thread::yield_now();
+}
+
+/// The decrement that takes the last handle of a side is logged where it happens; the close (and
+/// clear) that follow are critical sections of their own, between which other threads may run.
+fn atomic_after(aop: &'static str, old: usize) {
+    if aop != "fetch_sub" || old != 1 {
+        return;
+    }
+    let id = me();
+    with_rec(|r| {
+        let name = match &r.ctx.entry(id).or_default().op {
+            Some(o) => o["op"].as_str().unwrap_or("").to_string(),
+            None => return,
+        };
+        let dec = match name.as_str() {
+            "drop_sender" => "dec_sender",
+            "drop_receiver" => "dec_receiver",
+            _ => return,
+        };
+        r.log.push(json!({"op": dec, "wakes": [], "taken": []}));
+        let n = r.log.len() - 1;
+        let c = r.ctx.entry(id).or_default();
+        c.split = 1;
+        c.ev = Some(n);
+    });
 }
 
 struct TaskWaker {
@@ -184,6 +237,39 @@ fn drop_keep<F>(fut: std::pin::Pin<Box<F>>) {
     unsafe {
         let raw = Box::into_raw(std::pin::Pin::into_inner_unchecked(fut));
         std::ptr::drop_in_place(raw);
+    }
+}
+
+/// A call that went through several critical sections where the specification has one atomic
+/// step: all its events carry the complete call (result fields of the first, all wake-ups), are
+/// marked with `cid` and `last`, and the validator picks the critical section at which the call
+/// takes effect. Calls with a single critical section lose the mark.
+fn mark_multi(log: &mut Vec<Value>) {
+    let mut groups: HashMap<u64, Vec<usize>> = HashMap::new();
+    for (i, e) in log.iter().enumerate() {
+        if let Some(c) = e.get("cid").and_then(|c| c.as_u64()) {
+            groups.entry(c).or_default().push(i);
+        }
+    }
+    for (_, idx) in groups {
+        if idx.len() == 1 {
+            log[idx[0]].as_object_mut().unwrap().remove("cid");
+            continue;
+        }
+        let mut full = log[idx[0]].clone();
+        let mut wakes = Vec::new();
+        for &i in &idx {
+            if let Some(w) = log[i]["wakes"].as_array() {
+                wakes.extend(w.iter().cloned());
+            }
+        }
+        full["wakes"] = json!(wakes);
+        for (k, &i) in idx.iter().enumerate() {
+            let mut e = full.clone();
+            e["last"] = json!(k + 1 == idx.len());
+            e["csn"] = json!(k + 1);
+            log[i] = e;
+        }
     }
 }
 
@@ -755,6 +841,140 @@ fn prog_state(consts: &Value) {
     }
 }
 
+/// Shared state-broadcast channel: NSenders publisher threads own a sender clone each (the channel
+/// closes when the last one is dropped), K follower threads own a receiver clone each.
+fn prog_state_shared(consts: &Value) {
+    use futures_intrusive::channel::shared::generic_state_broadcast_channel;
+    let k = consts["K"].as_u64().unwrap_or(3) as usize;
+    let n = consts["Publications"].as_u64().unwrap_or(3) as u32;
+    let ns = consts["NSenders"].as_u64().unwrap_or(2) as u32;
+    let (tx, rx) = generic_state_broadcast_channel::<SLock, u32>();
+    let mut hs = Vec::new();
+    for t in 1..=k {
+        let (rxt, _) = call(json!({"op": "clone_receiver"}), || rx.clone());
+        hs.push(shuttle::thread::spawn(move || {
+            let mut id = StateId::new();
+            let mut got = 0;
+            loop {
+                let idn = id.verif_value();
+                let (fut, _) = call(json!({"op": "create", "r": t, "id": idn}), || rxt.receive(id));
+                let mut fut = Box::pin(fut);
+                let mut end = false;
+                loop {
+                    let v = variant();
+                    let w = mk_waker(json!([t, v]));
+                    let mut cx = Context::from_waker(&w);
+                    let (r, i) = call(json!({"op": "poll", "r": t, "w": v}), || fut.as_mut().poll(&mut cx));
+                    match r {
+                        Poll::Ready(Some((sid, x))) => {
+                            set_res(i, json!({"res": "some", "sid": sid.verif_value(), "v": x, "fterm": fut.is_terminated()}));
+                            id = sid;
+                            got += 1;
+                            break;
+                        }
+                        Poll::Ready(None) => {
+                            set_res(i, json!({"res": "none", "sid": 0, "v": 0, "fterm": fut.is_terminated()}));
+                            end = true;
+                            break;
+                        }
+                        Poll::Pending => {
+                            set_res(i, json!({"res": "pending", "sid": 0, "v": 0, "fterm": fut.is_terminated()}));
+                            if choice(8) == 0 {
+                                break; // abandon and start over with the same id
+                            }
+                            shuttle::thread::park();
+                        }
+                    }
+                }
+                call(json!({"op": "drop", "r": t}), move || drop_keep(fut));
+                // a follower may leave early; when all of them have, the channel closes under the publishers
+                if end || (got >= 1 && choice(5) == 0) {
+                    break;
+                }
+            }
+            call(json!({"op": "drop_receiver"}), move || drop(rxt));
+        }));
+    }
+    for p in 0..ns {
+        let (txp, _) = call(json!({"op": "clone_sender"}), || tx.clone());
+        hs.push(shuttle::thread::spawn(move || {
+            for j in 1..=n {
+                let v = p * n + j;
+                let (r, i) = call(json!({"op": "send", "v": v}), || txp.send(v));
+                match r {
+                    Ok(()) => set_res(i, json!({"res": "ok", "rv": 0})),
+                    Err(ChannelSendError(x)) => set_res(i, json!({"res": "err", "rv": x})),
+                }
+                shuttle::thread::yield_now();
+            }
+            call(json!({"op": "drop_sender"}), move || drop(txp));
+        }));
+    }
+    call(json!({"op": "drop_sender"}), move || drop(tx));
+    call(json!({"op": "drop_receiver"}), move || drop(rx));
+    for h in hs {
+        h.join().unwrap();
+    }
+}
+
+/// Shared oneshot-broadcast channel: K receiver threads with a receiver clone each, one sender thread
+/// that sends (or just goes away).
+fn prog_oneshot_bc_shared(consts: &Value) {
+    use futures_intrusive::channel::shared::generic_oneshot_broadcast_channel;
+    let k = consts["K"].as_u64().unwrap_or(3) as usize;
+    let (tx, rx) = generic_oneshot_broadcast_channel::<SLock, u32>();
+    let mut hs = Vec::new();
+    for t in 1..=k {
+        let (rxt, _) = call(json!({"op": "clone_receiver"}), || rx.clone());
+        hs.push(shuttle::thread::spawn(move || {
+            let (fut, _) = call(json!({"op": "create", "r": t}), || rxt.receive());
+            let mut fut = Box::pin(fut);
+            loop {
+                let v = variant();
+                let w = mk_waker(json!([t, v]));
+                let mut cx = Context::from_waker(&w);
+                let (r, i) = call(json!({"op": "poll", "r": t, "w": v}), || fut.as_mut().poll(&mut cx));
+                match r {
+                    Poll::Ready(Some(x)) => {
+                        set_res(i, json!({"res": "some", "v": x, "fterm": fut.is_terminated()}));
+                        break;
+                    }
+                    Poll::Ready(None) => {
+                        set_res(i, json!({"res": "none", "v": 0, "fterm": fut.is_terminated()}));
+                        break;
+                    }
+                    Poll::Pending => {
+                        set_res(i, json!({"res": "pending", "v": 0, "fterm": fut.is_terminated()}));
+                        if choice(6) == 0 {
+                            break;
+                        }
+                        shuttle::thread::park();
+                    }
+                }
+            }
+            call(json!({"op": "drop", "r": t}), move || drop_keep(fut));
+            call(json!({"op": "drop_receiver"}), move || drop(rxt));
+        }));
+    }
+    hs.push(shuttle::thread::spawn(move || {
+        for v in 1..=2u32 {
+            if choice(3) != 0 {
+                let (r, i) = call(json!({"op": "send", "v": v}), || tx.send(v));
+                match r {
+                    Ok(()) => set_res(i, json!({"res": "ok", "rv": 0})),
+                    Err(ChannelSendError(x)) => set_res(i, json!({"res": "err", "rv": x})),
+                }
+            }
+            shuttle::thread::yield_now();
+        }
+        call(json!({"op": "drop_sender"}), move || drop(tx));
+    }));
+    call(json!({"op": "drop_receiver"}), move || drop(rx));
+    for h in hs {
+        h.join().unwrap();
+    }
+}
+
 // --------------------------------------------------------------------- main
 
 fn arg<'a>(args: &'a [String], name: &str) -> Option<&'a str> {
@@ -770,6 +990,8 @@ fn main() {
     let iters: usize = arg(&args, "--iters").and_then(|s| s.parse().ok()).unwrap_or(100);
     let out = arg(&args, "--out").expect("--out").to_string();
     let pct = args.iter().any(|a| a == "--pct");
+    // re-run of one recorded schedule
+    let exact: Option<u64> = arg(&args, "--exact-seed").and_then(|s| s.parse().ok());
     use std::io::Write;
     let mut f = std::io::BufWriter::new(std::fs::File::create(&out).expect("create"));
     // the run in progress, so that a crash of the code under test can be attributed to it
@@ -778,8 +1000,12 @@ fn main() {
     let mut events = 0usize;
     let mut deadlocks = 0usize;
     // one shuttle run per iteration so that a failing schedule does not hide the others
+    futures_intrusive::verif::set_atomic_hooks(atomic_before, atomic_after);
     for it in 0..iters {
-        let s = seed.wrapping_mul(1_000_003).wrapping_add(it as u64);
+        let s = match exact {
+            Some(x) => x,
+            None => seed.wrapping_mul(1_000_003).wrapping_add(it as u64),
+        };
         with_rec(|r| *r = Rec::default());
         let _ = std::fs::write(
             &marker,
@@ -797,8 +1023,12 @@ fn main() {
             ("mpmc", _) if c2["Shared"].as_bool() == Some(true) => prog_mpmc_shared(&c2),
             ("mpmc", Some(0)) => prog_mpmc0(&c2),
             ("mpmc", _) => prog_mpmc1(&c2),
+            ("oneshot", _) if c2["Broadcast"].as_bool() == Some(true) && c2["Shared"].as_bool() == Some(true) => {
+                prog_oneshot_bc_shared(&c2)
+            }
             ("oneshot", _) if c2["Broadcast"].as_bool() == Some(true) => prog_oneshot_bc(&c2),
             ("oneshot", _) => prog_oneshot(&c2),
+            ("state", _) if c2["Shared"].as_bool() == Some(true) => prog_state_shared(&c2),
             ("state", _) => prog_state(&c2),
             ("timer", _) => prog_timer(&c2),
             _ => panic!("unknown primitive"),
@@ -836,6 +1066,7 @@ fn main() {
             let short: String = msg.chars().take(160).collect();
             log.push(json!({"op": "abort", "res": kind, "msg": short, "wakes": [], "taken": []}));
         }
+        mark_multi(&mut log);
         let header = json!({"op": "run_start", "prim": prim, "flavour": "slock-threads", "consts": consts,
                             "seed": s, "schedule": if pct { "pct" } else { "random" }, "aborted": failed});
         writeln!(f, "{}", header).unwrap();
